@@ -41,7 +41,8 @@ type rJob struct {
 	Arg2   int64  `json:"arg2"`   // flip: xor mask; readfault: number of consecutive failures
 	RFKind int    `json:"rfkind"` // readfault: 0 error mid-stream, 1 premature EOF, 2 open error
 	TXID   uint64 `json:"txid"`   // RestoreOptions.TXID
-	Integ  bool   `json:"integ"`  // run with IntegrityCheckQuick
+	Integ  int    `json:"integ"`  // 0 none | 1 IntegrityCheckQuick | 2 IntegrityCheckFull
+	Cancel bool   `json:"cancel"` // the context passed to Restore is already cancelled
 	Ref    string `json:"ref"`    // sha256 of the reference image
 	Ref2   string `json:"ref2"`   // alternative acceptable image ("" = none)
 	Class  string `json:"class"`
@@ -214,10 +215,19 @@ func runRestoreJob(j rJob, root, outPath string) rResult {
 	opt := litestream.NewRestoreOptions()
 	opt.OutputPath = outPath
 	opt.TXID = ltx.TXID(j.TXID)
-	if j.Integ {
+	switch j.Integ {
+	case 1:
 		opt.IntegrityCheck = litestream.IntegrityCheckQuick
+	case 2:
+		opt.IntegrityCheck = litestream.IntegrityCheckFull
 	}
-	err := rep.Restore(context.Background(), opt)
+	ctx := context.Background()
+	if j.Cancel {
+		c, cancel := context.WithCancel(ctx)
+		cancel()
+		ctx = c
+	}
+	err := rep.Restore(ctx, opt)
 	if err != nil {
 		res.Class, res.Err = 1, err.Error()
 		if len(res.Err) > 200 {
@@ -436,47 +446,86 @@ func buildReplica(e *env, name string, shape int) (*replicaSpec, error) {
 	return spec, nil
 }
 
-// brokenSQLiteReplica: a replica whose single LTX file is valid but decodes to
-// an image that fails PRAGMA quick_check.
-func brokenSQLiteReplica(e *env, from *replicaSpec) (string, error) {
+// brokenReplicas: replicas whose single LTX file is valid (written by the real
+// ltx.Encoder through file.ReplicaClient.WriteLTXFile) but decodes to an image
+// SQLite rejects in different ways.
+type brokenSpec struct {
+	name string
+	root string
+	ref  string // sha of the image the replica decodes to
+}
+
+func brokenReplicas(e *env, from *replicaSpec) ([]brokenSpec, error) {
 	dir := filepath.Join(e.out, "restore", "broken")
-	out := filepath.Join(dir, "img.db")
 	_ = os.MkdirAll(dir, 0o755)
-	img, err := restoreBytes(from.root, out)
+	good, err := restoreBytes(from.root, filepath.Join(dir, "img.db"))
 	if err != nil {
-		return "", err
+		return nil, err
 	}
-	ps := int(binary.BigEndian.Uint16(img[16:]))
+	ps := int(binary.BigEndian.Uint16(good[16:]))
 	if ps == 1 {
 		ps = 65536
 	}
-	for pg := 1; pg < len(img)/ps; pg++ { // every page but the first becomes garbage
-		for i := 0; i < ps; i++ {
-			img[pg*ps+i] = 0xA5
+	npages := len(good) / ps
+	fill := func(b []byte, v byte) {
+		for i := range b {
+			b[i] = v
 		}
 	}
-	root := filepath.Join(dir, "replica")
-	p := file.NewReplicaClient(root).LTXFilePath(0, 1, 1)
-	_ = os.MkdirAll(filepath.Dir(p), 0o755)
-	f, err := os.Create(p)
-	if err != nil {
-		return "", err
+	flavours := []struct {
+		name string
+		mk   func(img []byte) []byte
+	}{
+		{"all-but-page1-garbage", func(img []byte) []byte { fill(img[ps:], 0xA5); return img }},
+		{"not-a-database", func(img []byte) []byte { fill(img[:16], 0x5A); return img }},
+		{"schema-root-garbage", func(img []byte) []byte { fill(img[100:ps], 0xA5); return img }},
+		{"schema-root-type-byte", func(img []byte) []byte { img[100] = 0x7F; return img }},
+		{"last-page-garbage", func(img []byte) []byte { fill(img[(npages-1)*ps:], 0xA5); return img }},
+		{"table-page-cell-pointers", func(img []byte) []byte {
+			// scribble over the cell pointer array of every leaf table page but page 1
+			for pg := 1; pg < npages; pg++ {
+				if img[pg*ps] == 0x0D {
+					fill(img[pg*ps+8:pg*ps+8+12], 0xFF)
+				}
+			}
+			return img
+		}},
+		{"table-page-cell-content", func(img []byte) []byte {
+			for pg := 1; pg < npages; pg++ {
+				if img[pg*ps] == 0x0D {
+					fill(img[pg*ps+ps/2:pg*ps+ps], 0xEE)
+				}
+			}
+			return img
+		}},
+		{"freelist-count", func(img []byte) []byte { binary.BigEndian.PutUint32(img[36:], 1000); return img }},
+		{"truncated-image", func(img []byte) []byte { return img[:(npages-1)*ps] }},
+		{"truncated-to-one-page", func(img []byte) []byte { return img[:ps] }},
 	}
-	defer f.Close()
-	enc, _ := ltx.NewEncoder(f)
-	if err := enc.EncodeHeader(ltx.Header{Version: ltx.Version, Flags: ltx.HeaderFlagNoChecksum, PageSize: uint32(ps),
-		Commit: uint32(len(img) / ps), MinTXID: 1, MaxTXID: 1, Timestamp: time.Now().UnixMilli()}); err != nil {
-		return "", err
-	}
-	for pg := 0; pg < len(img)/ps; pg++ {
-		if err := enc.EncodePage(ltx.PageHeader{Pgno: uint32(pg + 1)}, img[pg*ps:(pg+1)*ps]); err != nil {
-			return "", err
+	var out []brokenSpec
+	for _, fl := range flavours {
+		img := fl.mk(append([]byte(nil), good...))
+		root := filepath.Join(dir, fl.name)
+		var buf bytes.Buffer
+		enc, _ := ltx.NewEncoder(&buf)
+		if err := enc.EncodeHeader(ltx.Header{Version: ltx.Version, Flags: ltx.HeaderFlagNoChecksum, PageSize: uint32(ps),
+			Commit: uint32(len(img) / ps), MinTXID: 1, MaxTXID: 1, Timestamp: time.Now().UnixMilli()}); err != nil {
+			return nil, err
 		}
+		for pg := 0; pg < len(img)/ps; pg++ {
+			if err := enc.EncodePage(ltx.PageHeader{Pgno: uint32(pg + 1)}, img[pg*ps:(pg+1)*ps]); err != nil {
+				return nil, err
+			}
+		}
+		if err := enc.Close(); err != nil {
+			return nil, err
+		}
+		if _, err := file.NewReplicaClient(root).WriteLTXFile(context.Background(), 0, 1, 1, &buf); err != nil {
+			return nil, err
+		}
+		out = append(out, brokenSpec{name: "broken/" + fl.name, root: root, ref: sha(img)})
 	}
-	if err := enc.Close(); err != nil {
-		return "", err
-	}
-	return root, nil
+	return out, nil
 }
 
 const sigF7 = "C10/ltx-decoder-close-panics-on-truncation-within-8-bytes-after-page-block-end"
@@ -502,7 +551,7 @@ func genRestore(e *env) error {
 	if len(specs) == 0 {
 		return nil
 	}
-	broken, err := brokenSQLiteReplica(e, specs[0])
+	broken, err := brokenReplicas(e, specs[0])
 	if err != nil {
 		return err
 	}
@@ -524,7 +573,10 @@ func genRestore(e *env) error {
 	}
 	for _, s := range specs {
 		add(s, rJob{Kind: "none", Class: s.name + "/uncorrupted"})
-		add(s, rJob{Kind: "none", Integ: true, Class: s.name + "/uncorrupted+quick_check"})
+		add(s, rJob{Kind: "none", Integ: 1, Class: s.name + "/uncorrupted+quick_check"})
+		add(s, rJob{Kind: "none", Integ: 2, Class: s.name + "/uncorrupted+integrity_check"})
+		add(s, rJob{Kind: "cancelled", Integ: 1, Cancel: true, Class: s.name + "/cancelled-context+quick_check"})
+		add(s, rJob{Kind: "cancelled", Integ: 0, Cancel: true, Class: s.name + "/cancelled-context"})
 		add(s, rJob{Kind: "preexist", Class: s.name + "/pre-existing-output"})
 		for _, pf := range s.plan {
 			base := rJob{Level: pf.level, Min: pf.min, Max: pf.max}
@@ -596,9 +648,13 @@ func genRestore(e *env) error {
 		}
 	}
 	// integrity check failure: valid LTX, broken SQLite image
-	bs := &replicaSpec{name: "broken-sqlite", root: broken, ref: "-"}
-	add(bs, rJob{Kind: "integrity", Integ: true, Class: "broken-sqlite/quick_check"})
-	add(bs, rJob{Kind: "integrity", Integ: false, Ref: "*", Class: "broken-sqlite/no-check"})
+	for _, b := range broken {
+		bs := &replicaSpec{name: b.name, root: b.root, ref: b.ref}
+		add(bs, rJob{Kind: "integrity", Integ: 1, Class: b.name + "/quick_check"})
+		add(bs, rJob{Kind: "integrity", Integ: 2, Class: b.name + "/integrity_check"})
+		add(bs, rJob{Kind: "integrity", Integ: 0, Class: b.name + "/no-check"})
+		add(bs, rJob{Kind: "cancelled", Integ: 1, Cancel: true, Class: b.name + "/cancelled-context+quick_check"})
+	}
 	nCorr := len(jobs)
 
 	// read faults on one file of the plan: k consecutive failures at an offset class
@@ -640,10 +696,7 @@ func genRestore(e *env) error {
 		s := meta[j.ID]
 		pre := j.Kind == "preexist"
 		same := res.Same
-		if j.Ref == "*" {
-			same = res.OutExists
-		}
-		in := L(B(pre), I(int64(res.Class)), B(res.OutExists), B(res.TmpExists), B(same), B(res.Unchanged), B(res.SideFiles))
+		in := L(B(pre), I(int64(res.Class)), B(res.OutExists), B(res.TmpExists), B(same), B(res.Unchanged), B(res.SideFiles), B(j.Cancel))
 		nontriv := j.Kind != "none"
 		e.cw.Add("restore_disc_ok", in, I(1), "restore/"+j.Class, nontriv)
 		key := j.Kind + "/" + []string{"ok", "error", "", "", "", "", "", "panic"}[res.Class]
@@ -676,11 +729,15 @@ func genRestore(e *env) error {
 		case !pre && res.Class == 0 && !same:
 			e.violation("C10/success-with-different-content:"+j.Kind, fmt.Sprintf("replica %s, %s of level %d %d-%d arg=%d arg2=%d: Restore returned nil but the output differs from the uncorrupted restore",
 				s.name, j.Kind, j.Level, j.Min, j.Max, j.Arg, j.Arg2), replay)
+		case j.Cancel && res.Class == 1 && (res.TmpExists || (res.OutExists && !same)):
+			e.violation("C10/output-left-behind-after-error", fmt.Sprintf("replica %s, cancelled context: out=%v (same=%v) tmp=%v after error %q", s.name, res.OutExists, same, res.TmpExists, res.Err), replay)
+		case j.Cancel:
+			// an interrupted check is not a failed check: the verified image may stay
 		case !pre && res.Class == 1 && (res.OutExists || res.TmpExists || res.SideFiles):
 			e.violation("C10/output-left-behind-after-error", fmt.Sprintf("replica %s, %s: out=%v tmp=%v side=%v after error %q", s.name, j.Kind, res.OutExists, res.TmpExists, res.SideFiles, res.Err), replay)
 		case !pre && res.Class == 0 && res.TmpExists:
 			e.violation("C10/temp-left-behind-after-success", s.name, replay)
-		case j.Kind == "integrity" && j.Integ && res.Class != 1:
+		case j.Kind == "integrity" && j.Integ != 0 && res.Class != 1:
 			e.violation("C10/failed-integrity-check-not-reported", "restore of an image that fails quick_check returned nil", replay)
 		case j.Kind == "readfault" && j.Arg2 <= 3 && res.Class != 0:
 			e.violation("C10/read-faults-within-budget-not-retried", fmt.Sprintf("replica %s: %d consecutive failures (kind %d) at offset %d of level %d %d-%d: %s", s.name, j.Arg2, j.RFKind, j.Arg, j.Level, j.Min, j.Max, res.Err), replay)
@@ -690,6 +747,21 @@ func genRestore(e *env) error {
 			e.violation("C10/uncorrupted-restore-fails", s.name+": "+res.Err, replay)
 		}
 	}
+	// which way did the failing integrity checks fail? both flavours must have been exercised
+	flav := map[string]int{}
+	for i, j := range jobs {
+		if j.Kind == "integrity" && j.Integ != 0 && results[i].Class == 1 {
+			switch {
+			case strings.Contains(results[i].Err, "integrity check failed"):
+				flav["reported-as-rows"]++
+			case strings.Contains(results[i].Err, "integrity check:"):
+				flav["statement-error"]++
+			default:
+				flav["other:"+results[i].Err]++
+			}
+		}
+	}
+	e.extra["integrity_failure_flavours"] = flav
 	e.extra["restore_outcomes"] = counts
 	return nil
 }
